@@ -163,7 +163,7 @@ func checkC15(c *chk.Ctx) {
 	cases := exportedCases(c, "MC_Pipeline_C15.cfg", "u")
 	var segs []*trace.Segment
 	evals := 0
-	reps := 2
+	reps := 8
 	if c.Thorough() {
 		reps = 20
 	}
